@@ -2,13 +2,14 @@
 """Regenerates MANIFEST.json from the table below (kept in one place so it stays valid)."""
 import json, os
 ROOT = os.path.dirname(os.path.dirname(os.path.abspath(__file__)))
-CHECKS = {
- "C03": dict(
-   technique="Coq proof (induction over the line list / source suffix) on a Gallina port of sloc.rs+comment.rs, tied by differential execution of the extracted model against SlocCounter's three entry points",
-   text="Theorems C03_partition, C03_total_is_line_count, C03_line_splitters_agree, C03_entry_points_agree, C03_append_monotone, C03_append_ignored_only_by_directive hold for every syntax value and every source (unbounded). The tie to the Rust code is a seeded differential run (built-in and adversarial custom syntaxes, arbitrary bytes, append pairs) plus the property oracles evaluated on the implementation itself.",
-   note="Trusted: Coq kernel, extraction (ExtrOcamlBasic), harness sgv-counter, UTF-8 lossy decoding of std. Panic-freedom/termination of the Rust loops is observed (catch_unwind, deadline), not proved.",
-   ref="5 (C03)"),
-}
+import importlib, sys
+sys.path.insert(0, os.path.join(ROOT, "tools"))
+CHECKS = {}
+for f in sorted(os.listdir(os.path.join(ROOT, "tools", "props"))):
+    if f.startswith("c") and f.endswith(".py"):
+        m = importlib.import_module("props." + f[:-3])
+        if getattr(m, "MANIFEST", None):
+            CHECKS[f[:-3].upper()] = m.MANIFEST
 NOT_YET = {}
 ALL = ["C%02d" % i for i in range(1, 21)]
 
@@ -50,6 +51,8 @@ def main():
         else:
             man["not_applicable"].append({"property_id": pid, "reason": NOT_YET.get(pid, "check not built yet (work in progress; planned per DESIGN.md section 5)")})
     json.dump(man, open(os.path.join(ROOT, "MANIFEST.json"), "w"), indent=1)
+    import vlib
+    json.dump(vlib.load_known_findings(), open(os.path.join(ROOT, "known_findings.json"), "w"), indent=1)
 
 if __name__ == "__main__":
     main()
